@@ -57,6 +57,9 @@ LEADER_RECORD_LENGTHS = {
 }
 
 
+UNKNOWN_CODES = True  # numeric enumerations are sometimes given a code outside their table
+
+
 def last_name(path):
     parts = [p for p in path.split("/") if not p.isdigit()]
     return parts[-1] if parts else ""
@@ -158,6 +161,7 @@ class Filler:
         self.required = required
         self.mode = mode
         self.enum_cycle = enum_cycle  # int: pick code number (cycle % n) for every enum
+        self.unknown_codes = UNKNOWN_CODES
 
     def padding(self, node, width, codec):
         rng = self.rng
@@ -190,6 +194,13 @@ class Filler:
                 if self.enum_cycle is not None
                 else rng.choice(codes)
             )
+            if self.enum_cycle is None and codec != "A-str" and self.unknown_codes and rng.randrange(8) == 0:
+                # a code outside the table (a later format revision, a reserved value): numeric
+                # enumerations pass such a number through unchanged
+                limit = 10 ** (width - 1) if codec == "A-int" else min(layout.BIN_MAX.get(codec, 255), 10**6)
+                extra = [c for c in {max(codes) + 1, max(codes) + 7, limit - 1, rng.randrange(0, limit)} if c not in codes and 0 <= c < limit]
+                if extra:
+                    code = rng.choice(sorted(extra))
             if codec == "A-int":
                 return V.render_int(code, width, rng)
             if codec == "A-str":
